@@ -393,11 +393,13 @@ def _corun_post_hints(c):
         tp, tq = ty['pre'], ty['post']
         out.append(L.Lemma('tidy-was-given-what-wait-left', ForAll([t], tp.mem(ty['pending'], t) == Select(Pw, t),
                                                                    patterns=[tp.mem(ty['pending'], t)])))
-        out.append(L.Lemma('tidy-at-the-deciding-instant', vt(tp) == vt(ws)))
+        if c.exc is None:
+            out.append(L.Lemma('tidy-at-the-deciding-instant', vt(tp) == vt(ws)))
         out.append(L.Lemma('nothing-created-is-pending-after-tidy', none_pending(tq, CRh)))
-        out.append(L.Lemma('cancel-requests-are-those-of-tidy', ForAll([t], Implies(
-            And(Select(CRh, t), tq.f('$cancel_req', t)),
-            And(Select(Pw, t), tq.f('$cancel_vt', t) == vt(ws))), patterns=[tq.f('$cancel_req', t)])))
+        if c.exc is None:
+            out.append(L.Lemma('cancel-requests-are-those-of-tidy', ForAll([t], Implies(
+                And(Select(CRh, t), tq.f('$cancel_req', t)),
+                And(Select(Pw, t), tq.f('$cancel_vt', t) == vt(ws))), patterns=[tq.f('$cancel_req', t)])))
     S = c.a.self
     T = c.pre.f('timeout', S)
     x_ = q()
